@@ -80,3 +80,72 @@ func init() {
 	}
 	specialReplays["server/handlers.(*readCommand).read#typestate:release-only-if-held@(*readCommand).read$1/func() { select { case <-limiter: default: } }()"] = c13
 }
+
+func init() {
+	// C14: a connection that authenticates and ends without ever requesting a
+	// shell must give its slot back. Driven against an in-process server.
+	c14 := func(P *Program, v *ObligResult) (string, string, bool, error) {
+		fn := fnOfObligation(P, v.Name)
+		src := `package server
+
+import (
+	"context"
+	"fmt"
+	"net"
+	"os"
+	"path/filepath"
+	"sync"
+	"testing"
+	"time"
+
+	"github.com/mimecast/dtail/internal/config"
+	"github.com/mimecast/dtail/internal/io/dlog"
+	"github.com/mimecast/dtail/internal/source"
+
+	gossh "golang.org/x/crypto/ssh"
+)
+
+func TestGovcReplay(t *testing.T) {
+	os.Setenv("DTAIL_HOSTNAME_OVERRIDE", "replayhost")
+	config.Setup(source.Server, &config.Args{ConfigFile: "none", Logger: "none", LogLevel: "error"}, nil)
+	config.Server.HostKeyFile = filepath.Join(t.TempDir(), "ssh_host_key")
+	config.Server.HostKeyBits = 2048
+	config.Server.MaxConnections = 2
+	ctx, cancel := context.WithCancel(context.Background())
+	defer cancel()
+	var wg sync.WaitGroup
+	wg.Add(1)
+	dlog.Start(ctx, &wg, source.Server)
+	s := New()
+	listener, err := net.Listen("tcp", "127.0.0.1:0")
+	if err != nil {
+		t.Skip(err)
+	}
+	defer listener.Close()
+	go s.listenerLoop(ctx, listener)
+	cur := func() int { s.stats.mutex.Lock(); defer s.stats.mutex.Unlock(); return s.stats.currentConnections }
+	// history: authenticate as the health user, open no channel, disconnect
+	c, err := gossh.Dial("tcp", listener.Addr().String(), &gossh.ClientConfig{User: config.HealthUser,
+		Auth: []gossh.AuthMethod{gossh.Password(config.HealthUser)}, HostKeyCallback: gossh.InsecureIgnoreHostKey(), Timeout: 5 * time.Second})
+	if err != nil {
+		t.Skip(err)
+	}
+	for i := 0; i < 200 && cur() != 1; i++ {
+		time.Sleep(5 * time.Millisecond)
+	}
+	c.Close()
+	for i := 0; i < 300 && cur() != 0; i++ {
+		time.Sleep(10 * time.Millisecond)
+	}
+	if n := cur(); n != 0 {
+		fmt.Printf("GOVC-REPLAY: the connection ended but the server still reports %d open connections\n", n)
+		t.Fatalf("reproduced: slot not returned (currentConnections=%d)", n)
+	}
+	fmt.Println("GOVC-REPLAY: slot returned")
+}
+`
+		out, ok, err := runOverlayTest(P, fn.Pkg.Pkg, src)
+		return src, out, ok, err
+	}
+	specialReplays["server.(*Server).handleConnection#post:slot-returned"] = c14
+}
